@@ -10,13 +10,27 @@ import sys
 from . import interact, runner
 
 
+class Utf8Capture(io.TextIOWrapper):
+    def __init__(self):
+        io.TextIOWrapper.__init__(self, io.BytesIO(), encoding="utf-8", errors="strict", newline="\n", write_through=True)
+
+    def getvalue(self):
+        self.flush()
+        return self.buffer.getvalue().decode("utf-8")
+
+    def isatty(self):
+        return False
+
+
 def run_inprocess(argv, stdin_lines):
     """-> dict(status, exc, out, err, consumed)"""
     import importlib
     mod = importlib.import_module("cvss.cvss_calculator")
     fake = interact.FakeStdin(stdin_lines or [])
     old = (sys.argv, sys.stdin, sys.stdout, sys.stderr)
-    out, err = io.StringIO(), io.StringIO()
+    # what a process really has: text layers over byte streams, UTF-8 and strict (a str that cannot be encoded - e.g. an
+    # undecodable byte of the command line, carried as a lone surrogate - makes print() fail there, unlike on a StringIO)
+    out, err = Utf8Capture(), Utf8Capture()
     sys.argv = ["cvss_calculator"] + list(argv)
     sys.stdin, sys.stdout, sys.stderr = fake, out, err
     status, exc = 0, None
@@ -33,6 +47,14 @@ def run_inprocess(argv, stdin_lines):
     finally:
         sys.argv, sys.stdin, sys.stdout, sys.stderr = old
     return {"status": status, "exc": exc, "out": out.getvalue(), "err": err.getvalue(), "consumed": fake.consumed}
+
+
+def can_be_argv(argv):
+    """can these strings be handed to a child process? (no NUL, only surrogates that stand for undecodable bytes)"""
+    try:
+        return all("\x00" not in a and os.fsencode(a) is not None for a in argv)
+    except (UnicodeError, ValueError):
+        return False
 
 
 def run_subprocess(argv, stdin_lines, python=None, timeout=60, console_script=False, env_extra=None, plant=None):
